@@ -1086,9 +1086,9 @@ def _stale_binary_job(args):
     second["script"] = rng.choice([{"read": "all", "exit": 3}, {"read": "all", "signal": 9}, {"read": "10", "exit": 1}])
     again = exec_scenario(second, wd, restart=True)
     viol = []
-    if first["rc"] != 0:
-        viol.append(("false_failure", "the first build failed: %s %r" % (first["status"], first["err"][-200:])))
-    elif again["rc"] == 0 and not again["sig"]:
+    # (when the first build fails - a scenario with an empty PENNE_BACKEND, say - there is no
+    # earlier executable and nothing to judge here; such runs are judged by the other jobs)
+    if first["rc"] == 0 and not first["sig"] and again["rc"] == 0 and not again["sig"]:
         viol.append(("silent_failure", "exit 0 although the backend failed (%s); the executable of the earlier build is still lying there" % second["script"]))
     shutil.rmtree(root, ignore_errors=True)
     return {"violations": [{"class": c, "detail": d, "scenario": sc_json(sc), "plan": [], "fault": "stale_binary", "index": i, "seed": seed} for c, d in viol], "runs": 2}
